@@ -283,7 +283,8 @@ func initModels() {
 		st.alloc.off++
 		bl := c.assumeBitlen(reach, v)
 		ln := c.bind("bytesn", "Int", app("div", add(bl, "7"), "8"))
-		arr := c.fresh("bytes", arrSort("Int"))
+		// the byte string is a function of the magnitude (deterministic encoding)
+		arr := c.bind("bytes", arrSort("Int"), app(c.uf("bigbytes", []string{"Int"}, arrSort("Int")), app("abs", v)))
 		ms := memSort("Int", 2)
 		E := c.heapGet(st.heap, "E|uint8|", ms)
 		st.heap = c.heapUpd(st.heap, "E|uint8|", ms, sto(E, r, arr))
